@@ -193,7 +193,52 @@ Section Oracles.
     {| o_res := r; o_queried := q; o_range := rg; o_prog := pg;
        o_cache := cache_view (cache st); o_db := db st |}.
 
+  (* ChainService.matchesCommittedHeader (the repair of F-C05-2): a filter held
+     locally is handed out only if the block has a committed filter header
+     (known hash, 0 <= height <= best: FetchHeader / FetchHeaderAncestors(1, .)
+     succeed) and the filter hashes, with the previous committed header, to
+     it — the check a filter from a peer has to pass *)
+  Definition local_ok (c : call) (f : Z) : bool :=
+    c_known c && (0 <=? c_blk c) && (c_blk c <=? best) && (Hf f (fh (c_blk c - 1)) =? fh (c_blk c)).
+
+  Definition good (c : call) (o : option Z) : option Z :=
+    match o with Some f => if local_ok c f then Some f else None | None => None end.
+
   Definition get_cfilter (st : gstate) (c : call) : gstate * obs :=
+    if negb (c_ftype_ok c) then (st, mk_obs st RErrOther false (0, 0) []) else
+    (* FilterCache.Get moves a hit to the front, whether it is served or not *)
+    let st1 := {| cache := snd (lru_get (cache st) (c_blk c)); db := db st; dbq := dbq st |} in
+    match good c (fst (lru_get (cache st) (c_blk c))) with
+    | Some f => (st1, mk_obs st1 (RFilter f) false (0, 0) [])
+    | None =>
+      match good c (db_get (db st) (c_blk c)) with
+      | Some f => (st1, mk_obs st1 (RFilter f) false (0, 0) [])
+      | None =>
+        (* mutex taken; the second cache lookup finds what the first one found
+           (the entry, if any, is at the front already) and rejects it again *)
+        if negb (c_known c) then (st1, mk_obs st1 RErrOther false (0, 0) []) else
+        match prepare (c_blk c) best (c_batch c) (c_maxbatch c) with
+        | PErr => (st1, mk_obs st1 RErrOther false (0, 0) [])
+        | POk start stop pend =>
+          let '(q, pg) := feed (c_blk c)
+                            {| pending := pend; tfilter := None;
+                               qcache := cache st1; qdbq := dbq st |} (c_resps c) in
+          let st2 := {| cache := qcache q; db := db st; dbq := qdbq q |} in
+          let res :=
+            match c_verdict c with
+            | VErr => RErrQuery
+            | VQuit => RErrQuit
+            | VOk => match tfilter q with Some f => RFilter f | None => RErrFetch end
+            end in
+          (st2, mk_obs st2 res true (start, stop) pg)
+        end
+      end
+    end.
+
+  (* RECORD of the code before the repair (finding F-C05-2): cache and
+     database hits were handed out unchecked.  Used by the refutation
+     C05_unrepaired_stale_entry_refuted only. *)
+  Definition get_cfilter_unrepaired (st : gstate) (c : call) : gstate * obs :=
     if negb (c_ftype_ok c) then (st, mk_obs st RErrOther false (0, 0) []) else
     match lru_get (cache st) (c_blk c) with
     | (Some f, c') =>
@@ -202,24 +247,7 @@ Section Oracles.
     | (None, _) =>
       match db_get (db st) (c_blk c) with
       | Some f => (st, mk_obs st (RFilter f) false (0, 0) [])
-      | None =>
-        (* mutex taken; the second cache lookup misses again *)
-        if negb (c_known c) then (st, mk_obs st RErrOther false (0, 0) []) else
-        match prepare (c_blk c) best (c_batch c) (c_maxbatch c) with
-        | PErr => (st, mk_obs st RErrOther false (0, 0) [])
-        | POk start stop pend =>
-          let '(q, pg) := feed (c_blk c)
-                            {| pending := pend; tfilter := None;
-                               qcache := cache st; qdbq := dbq st |} (c_resps c) in
-          let st1 := {| cache := qcache q; db := db st; dbq := qdbq q |} in
-          let res :=
-            match c_verdict c with
-            | VErr => RErrQuery
-            | VQuit => RErrQuit
-            | VOk => match tfilter q with Some f => RFilter f | None => RErrFetch end
-            end in
-          (st1, mk_obs st1 res true (start, stop) pg)
-        end
+      | None => get_cfilter st c
       end
     end.
 
@@ -262,23 +290,17 @@ End Oracles.
    request: a call queued behind another one therefore behaves exactly like
    the sequential history  Call A; Rewrite; Call B.
 
-   Nothing in the code invalidates FilterCache / FilterDB entries when filter
-   headers are rewritten.  Ghost flag `stale` (root cause 1, never read by the
-   behaviour): set when a rewrite leaves an entry of the cache, the database
-   or the writer's queue that no longer satisfies the relation for the new
-   headers. *)
+   Nothing invalidates FilterCache / FilterDB entries when filter headers are
+   rewritten: entries verified against the old headers stay.  Since the repair
+   of F-C05-2 they are no longer handed out (local_ok), and the verified
+   answer of the network query that follows overwrites them. *)
 Section Rewrites.
   Variable Hf : Z -> Z -> Z.
   Variable fsize : Z -> Z.
   Variable cap : Z.
   Variable persist : bool.
 
-  (* envbad: second ghost flag, about the ENVIRONMENT of the code under test
-     (never read by the behaviour): set when a writer that commits inside a
-     read window (XCallW) stores an entry that does not satisfy the relation
-     for the committed headers.  The real writers (the batch writer persisting
-     verified filters) never do; the harness never does. *)
-  Record xstate := { base : gstate; hdrs : Z -> Z; xbest : Z; stale : bool; envbad : bool }.
+  Record xstate := { base : gstate; hdrs : Z -> Z; xbest : Z }.
 
   Inductive xop :=
   | XBase (o : op)
@@ -287,22 +309,23 @@ Section Rewrites.
   | XCallW (c : call) (w : list (Z * Z)).
     (* GetCFilter whose database lookup is overlapped by other writers: after
        the read transaction of FilterDB.FetchFilter has ended, and before the
-       call goes on, the puts w (other keys' filters; oldest first, any number
-       of commits) are committed to the filter database *)
+       call goes on, the puts w (any keys, any filters; oldest first, any
+       number of commits) are committed to the filter database *)
 
   Definition entries (g : gstate) : list (Z * Z) := cache_view (cache g) ++ db g ++ dbq g.
   Definition entry_ok (fh : Z -> Z) (p : Z * Z) : bool := Hf (snd p) (fh (fst p - 1)) =? fh (fst p).
   Definition entries_ok (fh : Z -> Z) (g : gstate) : bool := forallb (entry_ok fh) (entries g).
 
-  (* GetCFilter opens a database read transaction iff the filter type is
-     accepted and the first cache lookup misses *)
-  Definition read_window (g : gstate) (c : call) : bool :=
-    c_ftype_ok c && match lru_find (cache g) (c_blk c) with Some _ => false | None => true end.
+  (* GetCFilter opens the database read transaction iff the filter type is
+     accepted and the cache lookup does not produce a filter that is served *)
+  Definition read_window (fh : Z -> Z) (best : Z) (g : gstate) (c : call) : bool :=
+    c_ftype_ok c &&
+    match good Hf fh best c (fst (lru_get (cache g) (c_blk c))) with Some _ => false | None => true end.
 
   (* FilterDB.FetchFilter overlapped by writers, in two phases: the read
      transaction looks the key up in the database as it is THEN (snapshot);
-     what is decoded and returned afterwards is that value, whatever the
-     writers w commit in between *)
+     what is decoded, checked and returned afterwards is that value, whatever
+     the writers w commit in between *)
   Definition db_fetch (d : list (Z * Z)) (k : Z) (w : list (Z * Z)) : option Z * list (Z * Z) :=
     (db_get d k, db_put_all d w).
 
@@ -310,11 +333,9 @@ Section Rewrites.
     match o with
     | XBase o' =>
       let '(g, ob) := step Hf (hdrs st) fsize (xbest st) cap persist (base st) o' in
-      ({| base := g; hdrs := hdrs st; xbest := xbest st; stale := stale st; envbad := envbad st |}, ob)
+      ({| base := g; hdrs := hdrs st; xbest := xbest st |}, ob)
     | XRewrite nb nf =>
-      ({| base := base st; hdrs := nf; xbest := nb;
-          stale := stale st || negb (entries_ok nf (base st)); envbad := envbad st |},
-       mk_obs (base st) RNone false (0, 0) [])
+      ({| base := base st; hdrs := nf; xbest := nb |}, mk_obs (base st) RNone false (0, 0) [])
     | XGetBlock _ =>
       (* GetBlock touches the block cache only: filter cache, filter database
          and writer queue are what they were *)
@@ -325,14 +346,13 @@ Section Rewrites.
          committing w after the call is the same as committing it right after
          the read transaction (Proofs.callw_two_phase) *)
       let '(g, ob) := step Hf (hdrs st) fsize (xbest st) cap persist (base st) (Call c) in
-      if read_window (base st) c then
+      if read_window (hdrs st) (xbest st) (base st) c then
         let g' := {| cache := cache g; db := db_put_all (db g) w; dbq := dbq g |} in
-        ({| base := g'; hdrs := hdrs st; xbest := xbest st; stale := stale st;
-            envbad := envbad st || negb (forallb (entry_ok (hdrs st)) w) |},
+        ({| base := g'; hdrs := hdrs st; xbest := xbest st |},
          {| o_res := o_res ob; o_queried := o_queried ob; o_range := o_range ob; o_prog := o_prog ob;
             o_cache := o_cache ob; o_db := db g' |})
       else
-        ({| base := g; hdrs := hdrs st; xbest := xbest st; stale := stale st; envbad := envbad st |}, ob)
+        ({| base := g; hdrs := hdrs st; xbest := xbest st |}, ob)
     end.
 
   Fixpoint xrun (st : xstate) (ops : list xop) : list obs :=
